@@ -1,5 +1,6 @@
 import TexcraftModel.Model.C06
 import TexcraftModel.Model.C06Spec
+import TexcraftModel.Model.C06Dec
 /-
 C06 — where a constant ends. A character-level reading of `<signs><constant><what follows>`
 in integer, dimension and glue context, parameterised by the digit predicate (`constDigit` of
@@ -42,6 +43,15 @@ def signs : List Tok → Bool × List Tok
   | .space :: t => signs t
   | t => (false, t)
 
+def dropSpaces : List Tok → List Tok
+  | .space :: t => dropSpaces t
+  | t => t
+
+/-- Where a keyword is looked for. TeX's `scan_keyword` (§407) first skips blanks — and does not
+put them back if the keyword does not follow; `parse_keyword` does the same since
+fixes/C06-j.patch (`skip = true`; `false` describes the code before it: `1true pt`, `1fil l`). -/
+def kwStart (skip : Bool) (t : List Tok) : List Tok := if skip then dropSpaces t else t
+
 def keyword : List Char → List Tok → Option (List Tok)
   | [], t => some t
   | k :: ks, .ch c true :: t => if c = k ∨ c = k.toUpper then keyword ks t else none
@@ -69,9 +79,16 @@ def parseInt (dg : DigitFn) (t : List Tok) : PInt :=
   | some (r, ds, rest) => { neg := s.1, const := some (r, ds), rest := rest }
   | none => { neg := s.1, const := none, rest := s.2 }
 
-def countL : List Tok → Nat × List Tok
-  | .ch c true :: t => if c = 'l' ∨ c = 'L' then let r := countL t; (r.1 + 1, r.2) else (0, .ch c true :: t)
-  | t => (0, t)
+/-- §454 `while scan_keyword("l")`: at most `fuel` further `l`s (the text is that long). TeX skips
+blanks before each `l` (`1fil l` is `1fill`); the code reads the `l`s token by token and stops at
+a blank (`skip = false`) — recorded deviation C06-k, pinned by `math::tests::advance_glue_3`. -/
+def countL (skip : Bool) : Nat → List Tok → Nat × List Tok
+  | 0, t => (0, t)
+  | fuel + 1, t =>
+    match kwStart skip t with
+    | .ch c true :: r =>
+      if c = 'l' ∨ c = 'L' then let n := countL skip fuel r; (n.1 + 1, n.2) else (0, .ch c true :: r)
+    | t' => (0, t')
 
 /-- `em_width()` and `ex_height()` of the state the harness runs (10pt and 4.30554pt, as cmr10;
 deliberately different from each other and from texlang's default of 12pt for both). -/
@@ -89,9 +106,10 @@ def firstUnit : List (String × TUnit) → List Tok → Option (TUnit × List To
     | none => firstUnit ks t
 
 /-- §453–§459 / `scan_and_apply_units` on characters (internal units are not text). -/
-def parseUnit (glue : Bool) (t : List Tok) : UnitSpec × List Tok :=
+def parseUnit (skip skipL : Bool) (glue : Bool) (t0 : List Tok) : UnitSpec × List Tok :=
+  let t := kwStart skip t0
   match (if glue then keyword "fil".toList t else none) with
-  | some r => let l := countL r; (.fil l.1, optSpace l.2)
+  | some r => let l := countL skipL r.length r; (.fil l.1, optSpace l.2)
   | none =>
     match keyword "em".toList t with
     | some r => (.internal emWidth, optSpace r)
@@ -99,7 +117,9 @@ def parseUnit (glue : Bool) (t : List Tok) : UnitSpec × List Tok :=
       match keyword "ex".toList t with
       | some r => (.internal exHeight, optSpace r)
       | none =>
-        let t := (keyword "true".toList t).getD t
+        let t := match keyword "true".toList t with
+          | some r => kwStart skip r
+          | none => t
         match firstUnit physUnits t with
         | some (u, r) => (.phys u, optSpace r)
         | none => (.bad, optSpace t)
@@ -119,48 +139,37 @@ def fraction (t : List Tok) : List Nat × List Tok :=
   let r := takeDigits decDigit 10 t
   (r.1, optSpace r.2)
 
-/-- §448 / `scan_dimen` on characters. `fracAfterSpace`: whether a decimal point is still looked
-for after the optional space that ended the integer part. TeX does not (after `scan_int` the
-current token is the consumed space, so `1 .5pt` has no fraction and `.5pt` is an illegal unit);
-the code did until fixes/C06-i.patch. Both M and S use `false`; `true` describes the unfixed code. -/
-def parseDimen (dg : DigitFn) (glue : Bool) (fracAfterSpace : Bool) (t : List Tok) : PDimen :=
+/-- The number part of a dimension (after the signs): the head and what follows it.
+`fracAfterSpace`: whether a decimal point is still looked for after the optional space that
+ended the integer part. TeX does not (after `scan_int` the current token is the consumed space,
+so `1 .5pt` has no fraction and `.5pt` is an illegal unit); the code did until
+fixes/C06-i.patch. Both M and S use `false`; `true` describes the unfixed code. -/
+def parseHead (dg : DigitFn) (fracAfterSpace : Bool) : List Tok → Head × List Tok
+  | .ch c false :: t =>
+    if c = '.' ∨ c = ',' then
+      let f := fraction t
+      (.point f.1, f.2)
+    else if c = '"' then let r := takeDigits dg 16 t; (.const 16 r.1 none, optSpace r.2)
+    else if c = '\'' then let r := takeDigits dg 8 t; (.const 8 r.1 none, optSpace r.2)
+    else if c.isDigit then
+      let r := takeDigits dg 10 (.ch c false :: t)
+      let spaced := match r.2 with | .space :: _ => true | _ => false
+      match optSpace r.2 with
+      | q :: r2 =>
+        if isPoint q && (!spaced || fracAfterSpace) then
+          let f := fraction r2
+          (.const 10 r.1 (some f.1), f.2)
+        else (.const 10 r.1 none, q :: r2)
+      | [] => (.const 10 r.1 none, [])
+    else (.const 10 [] none, .ch c false :: t)      -- no number: error, zero
+  | t => (.const 10 [] none, t)
+
+/-- §448 / `scan_dimen` on characters: signs, number, units. -/
+def parseDimen (dg : DigitFn) (skip skipL : Bool) (glue : Bool) (fracAfterSpace : Bool) (t : List Tok) : PDimen :=
   let s := signs t
-  match s.2 with
-  | p :: t1 =>
-    if isPoint p then
-      let f := fraction t1
-      let u := parseUnit glue f.2
-      { neg := s.1, head := .point f.1, unit := u.1, rest := u.2 }
-    else
-      match p :: t1 with
-      | .ch c false :: t2 =>
-        let cst : Option (Int × List Nat × List Tok × Bool) :=
-          if c = '"' then let r := takeDigits dg 16 t2; some (16, r.1, r.2, false)
-          else if c = '\'' then let r := takeDigits dg 8 t2; some (8, r.1, r.2, false)
-          else if c.isDigit then let r := takeDigits dg 10 (.ch c false :: t2); some (10, r.1, r.2, true)
-          else none
-        match cst with
-        | none =>
-          -- no number: error, zero; units follow
-          let u := parseUnit glue (p :: t1)
-          { neg := s.1, head := .const 10 [] none, unit := u.1, rest := u.2 }
-        | some (radix, ds, r, dec) =>
-          let spaced := match r with | .space :: _ => true | _ => false
-          let r1 := optSpace r
-          match r1 with
-          | q :: r2 =>
-            if dec && isPoint q && (!spaced || fracAfterSpace) then
-              let f := fraction r2
-              let u := parseUnit glue f.2
-              { neg := s.1, head := .const radix ds (some f.1), unit := u.1, rest := u.2 }
-            else
-              let u := parseUnit glue r1
-              { neg := s.1, head := .const radix ds none, unit := u.1, rest := u.2 }
-          | [] => { neg := s.1, head := .const radix ds none, unit := .bad, rest := [] }
-      | _ =>
-        let u := parseUnit glue (p :: t1)
-        { neg := s.1, head := .const 10 [] none, unit := u.1, rest := u.2 }
-  | [] => { neg := s.1, head := .const 10 [] none, unit := .bad, rest := [] }
+  let h := parseHead dg fracAfterSpace s.2
+  let u := parseUnit skip skipL glue h.2
+  { neg := s.1, head := h.1, unit := u.1, rest := u.2 }
 
 structure PGlue where
   width : PDimen
@@ -170,16 +179,45 @@ structure PGlue where
   deriving Repr
 
 /-- §461 / `Glue::parse_impl` on characters. -/
-def parseGlue (dg : DigitFn) (fas : Bool) (t : List Tok) : PGlue :=
-  let w := parseDimen dg false fas t
+def parseGlue (dg : DigitFn) (skip skipL : Bool) (fas : Bool) (t : List Tok) : PGlue :=
+  let w := parseDimen dg skip skipL false fas t
   let (p, r) : Option PDimen × List Tok :=
-    match keyword "plus".toList w.rest with
-    | some r => let d := parseDimen dg true fas r; (some d, d.rest)
-    | none => (none, w.rest)
+    match keyword "plus".toList (kwStart skip w.rest) with
+    | some r => let d := parseDimen dg skip skipL true fas r; (some d, d.rest)
+    | none => (none, kwStart skip w.rest)
   let (m, r) : Option PDimen × List Tok :=
-    match keyword "minus".toList r with
-    | some r => let d := parseDimen dg true fas r; (some d, d.rest)
-    | none => (none, r)
+    match keyword "minus".toList (kwStart skip r) with
+    | some r => let d := parseDimen dg skip skipL true fas r; (some d, d.rest)
+    | none => (none, kwStart skip r)
   { width := w, plus := p, minus := m, rest := r }
+
+/-! ## What `\the` writes, as tokens (`TokenWrite` in the.rs: letters get category letter,
+a space is a space token, everything else category other) -/
+
+def digitTok (d : Nat) : Tok := .ch (digitChar d) false
+
+/-- `print_scaled` / `display_no_units`: sign, decimal digits of the integer part, point, fraction. -/
+def renderToks (p : Printed) : List Tok :=
+  (if p.neg then [.ch '-' false] else []) ++ (dec5 p.ip).map digitTok ++ [.ch '.' false] ++ p.frac.map digitTok
+
+/-- The unit that follows: `pt`, `fil`, `fill`, `filll` (§177 `print_glue`). -/
+def unitToks : Nat → List Tok
+  | 0 => [.ch 'p' true, .ch 't' true]
+  | k + 1 => [.ch 'f' true, .ch 'i' true, .ch 'l' true] ++ List.replicate k (.ch 'l' true)
+
+/-- `Display for Glue` (§178 `print_spec`): width `pt`, then ` plus …` / ` minus …` if non-zero. -/
+def renderGlueToks (g : Glue) : List Tok :=
+  renderToks (Spec.printScaled g.width) ++ unitToks 0
+    ++ (if g.stretch ≠ 0 then
+          [.space, .ch 'p' true, .ch 'l' true, .ch 'u' true, .ch 's' true, .space]
+            ++ renderToks (Spec.printScaled g.stretch) ++ unitToks g.stretchOrder
+        else [])
+    ++ (if g.shrink ≠ 0 then
+          [.space, .ch 'm' true, .ch 'i' true, .ch 'n' true, .ch 'u' true, .ch 's' true, .space]
+            ++ renderToks (Spec.printScaled g.shrink) ++ unitToks g.shrinkOrder
+        else [])
+
+def toksString (t : List Tok) : String :=
+  String.ofList (t.map fun | .ch c _ => c | .space => ' ' | .cs => '?')
 
 end C06.Text
